@@ -199,6 +199,21 @@ Theorem oracle_budgets_sound : forall rem infl capb tused tb,
 Proof. exact budgets_ok_b_spec. Qed.
 Print Assumptions oracle_budgets_sound.
 
+(* Allocator.ClassifyClaims: a claim already allocated by an earlier pod of the pass is never searched again, also
+   when it is allocated in-cluster and reserved only by pods that are being deleted (F-C17-1, fixed by 4c084d0ce). *)
+Theorem claim_allocated_once_per_pass : forall alloc only_deleting, classify alloc only_deleting true <> CUnalloc.
+Proof. exact allocated_once_l. Qed.
+Print Assumptions claim_allocated_once_per_pass.
+
+Theorem claim_allocated_once_per_pass_before_fix_refuted :
+  exists alloc only_deleting, classify_before_fix alloc only_deleting true = CUnalloc.
+Proof. exact allocated_once_before_fix_refuted_l. Qed.
+Print Assumptions claim_allocated_once_per_pass_before_fix_refuted.
+
+Theorem migrating_claim_reallocated_exactly_once : classify true true false = CUnalloc /\ classify true true true = CInMemory.
+Proof. exact migrating_claim_reallocated_first_l. Qed.
+Print Assumptions migrating_claim_reallocated_exactly_once.
+
 (* Non-vacuity: a pass in which a second NodeClaim is deferred in strict mode and falls back otherwise, a release by
    narrowing that lets another NodeClaim acquire the reservation, a pool pair reporting different capacities. *)
 Example strict_pass :
